@@ -26,6 +26,7 @@ import HealSparse.Model.WellFormed
 import HealSparse.Lemmas.FitsIO
 import HealSparse.Lemmas.DegradeOnRead
 import HealSparse.Lemmas.Cat
+import Lean.Elab.Tactic
 namespace HS
 
 /-! ### generic facts -/
@@ -472,6 +473,13 @@ theorem WFFiles.dorW_leaf {f : FileObj} {ordOut : Nat} {K : Kind} {S : Val} {st 
   rw [degCfg_cfgOf (by omega) (by omega)] at this
   exact this
 
+theorem WFFiles.guard_match_ok {α : Type} {c : Prop} [Decidable c] {e : Err} {u : α}
+    {f : α → Except Err MapObj} {m : MapObj}
+    (h : Except.bind (if c then Except.error e else Except.ok u) f = .ok m) : ¬ c ∧ f u = .ok m := by
+  by_cases hc : c
+  · rw [if_pos hc] at h; cases h
+  · rw [if_neg hc] at h; exact ⟨hc, h⟩
+
 set_option hygiene false in
 /-- a leaf of `apiDegradeOnRead`: `mk kindOut sentOut (degradeOnRead[W] …)`, on the hypothesis `h` -/
 local macro "dor_leafs" : tactic => `(tactic| (
@@ -479,9 +487,9 @@ local macro "dor_leafs" : tactic => `(tactic| (
   · cases h
     refine ⟨?_, ?_, rfl, rfl, rfl, rfl⟩
     · first
-      | exact dor_leaf _ h1 h2 rfl ‹_›
-      | exact dorW_leaf _ h1 h2 rfl ‹_›
-      | exact dor_leaf _ h1 h2 (by split <;> rfl) ‹_›
+      | exact dor_leaf _ ‹¬ _ ≥ _› ‹¬ _ < _› rfl ‹_›
+      | exact dorW_leaf _ ‹¬ _ ≥ _› ‹¬ _ < _› rfl ‹_›
+      | exact dor_leaf _ ‹¬ _ ≥ _› ‹¬ _ < _› (by split <;> rfl) ‹_›
     · first
       | exact fileKind_sentOK hk
       | exact Kind.sentOK_plain _ _
@@ -489,32 +497,60 @@ local macro "dor_leafs" : tactic => `(tactic| (
       | (show Kind.sentOK _ _; split <;> exact Kind.sentOK_plain _ _)
   · cases h))
 
+open Lean Elab Tactic Meta in
+/-- succeeds iff the hypothesis `h` has the form `(if c then Except.error e else b) = r` (checked
+    syntactically: unification against the unfolded `apiDegradeOnRead` is too expensive to fail) -/
+elab "is_guard_hyp" : tactic => withMainContext do
+  let h ← getLocalDeclFromUserName `h
+  let ty := (← instantiateMVars h.type).consumeMData
+  let some (_, lhs, _) := ty.eq? | throwError "not an equation"
+  let lhs := lhs.consumeMData
+  unless lhs.isAppOfArity ``ite 5 && (lhs.getArg! 3).consumeMData.isAppOf ``Except.error do
+    throwError "not a guard"
+
 set_option hygiene false in
-/-- the common tail of `apiDegradeOnRead` (from the `nside` checks on), on the hypothesis `h` -/
-local macro "dor_rest" : tactic => `(tactic| (
-  obtain ⟨h2, h⟩ := ite_err_ok h
+/-- peel the validation guards (`if c then throw …`) off the hypothesis `h`, keeping the facts -/
+local macro "dor_guards" : tactic => `(tactic| repeat (is_guard_hyp; obtain ⟨_, h⟩ := ite_err_ok h))
+
+set_option hygiene false in
+/-- an `if` on the (by now concrete) flag `useW`: keep the live branch -/
+local macro "dor_if" : tactic => `(tactic| (
+  rcases ite_ok_inv h with ⟨hc, h⟩ | ⟨hc, h⟩ <;>
+    first | (cases hc; done) | (exact absurd rfl hc) | (exact absurd trivial hc) | skip))
+
+set_option hygiene false in
+/-- the tail of `apiDegradeOnRead` once the kind is known (from the check of the data on), on `h` -/
+local macro "dor_tail" : tactic => `(tactic| (
+    dor_guards
+    cases k with
+    | packed => first | cases h | (dsimp only at h; cases h)
+    | wide n =>
+      try dsimp only at h
+      dor_guards
+      dor_leafs
+    | recd fs pr =>
+      try dsimp only at h
+      dor_guards
+      try dsimp only at h
+      dor_leafs
+    | plain dt0 =>
+      try dsimp only at h
+      obtain ⟨_, h⟩ | ⟨_, h⟩ := ite_ok_inv h
+      · dor_leafs
+      · dor_guards
+        try dsimp only at h
+        dor_leafs))
+
+set_option hygiene false in
+/-- from the kind recovery on (with a weight file in use there is one more guard, its coverage
+    where the map has observed pixels) -/
+local macro "dor_kind" : tactic => `(tactic| (
   generalize hk : fileKind _ = ok at h
   cases ok with
   | none => cases h
   | some k =>
-    obtain ⟨_, h⟩ := ite_err_ok h
-    cases k with
-    | packed => cases h
-    | wide n =>
-      obtain ⟨_, h⟩ := ite_err_ok h
-      dor_leafs
-    | recd fs pr =>
-      obtain ⟨_, h⟩ := ite_err_ok h
-      obtain ⟨_, h⟩ := ite_err_ok h
-      try dsimp only at h
-      dor_leafs
-    | plain dt0 =>
-      obtain ⟨_, h⟩ | ⟨_, h⟩ := ite_ok_inv h
-      · dor_leafs
-      · obtain ⟨_, h⟩ := ite_err_ok h
-        obtain ⟨_, h⟩ := ite_err_ok h
-        try dsimp only at h
-        dor_leafs))
+    dor_if
+    dor_tail))
 
 /-- what a successful `apiDegradeOnRead` returns; NOTHING is assumed about the file or the
     weight file -/
@@ -531,27 +567,21 @@ theorem apiDegradeOnRead_ok {f : FileObj} {ordOut : Nat} {red : String}
     cases wf with
     | none =>
       dsimp only at h
-      obtain ⟨h1, h⟩ := ite_err_ok h
-      obtain ⟨_, h⟩ := ite_err_ok h
-      obtain ⟨hc, h⟩ | ⟨_, h⟩ := ite_ok_inv h
-      · cases hc
-      · dor_rest
+      dor_guards
+      dor_if
+      dor_guards
+      dor_kind
     | some w =>
       dsimp only at h
       obtain ⟨_, h⟩ | ⟨_, h⟩ := ite_ok_inv h
-      · obtain ⟨_, h⟩ := ite_err_ok h
-        obtain ⟨_, h⟩ := ite_err_ok h
-        obtain ⟨h1, h⟩ := ite_err_ok h
-        obtain ⟨_, h⟩ := ite_err_ok h
-        obtain ⟨_, h⟩ | ⟨hc, h⟩ := ite_ok_inv h
-        · obtain ⟨_, h⟩ := ite_err_ok h
-          dor_rest
-        · exact absurd trivial hc
-      · obtain ⟨h1, h⟩ := ite_err_ok h
-        obtain ⟨_, h⟩ := ite_err_ok h
-        obtain ⟨hc, h⟩ | ⟨_, h⟩ := ite_ok_inv h
-        · cases hc
-        · dor_rest
+      · dor_guards
+        dor_if
+        dor_guards
+        dor_kind
+      · dor_guards
+        dor_if
+        dor_guards
+        dor_kind
 
 /-- **degrade-on-read returns a well-formed map** (as asked, with the well-formedness of the
     file and of the weight file as hypotheses; they are not used: see `WF.apiDegradeOnRead'`) -/
